@@ -16,6 +16,8 @@ def check(ctx):
     c = collector.Collector(ctx, facts)
     spanrules.rule_cancel_roots_only(ctx, facts, "R1")
     spsc.rule_order(ctx, facts, "R2")
+    from .. import fixtures
+    fixtures.lifo_detector(ctx, "R2")
     if c.need("R3"):
         collector.rule_cancel_inert(ctx, c, "R3")
         collector.rule_phase_order(ctx, c, "R4", [("start", "drop"), ("drop", "commit")])
